@@ -546,7 +546,7 @@ pub fn run(ctx: &mut Ctx) {
     ctx.exhaustive = Some(true);
     ctx.enumerate("exhaustive_reduced", space, |ctx, h| run_hist(ctx, h));
 
-    let cases = ctx.tier.pick(30_000u32, 400_000u32);
+    let cases = ctx.tier.pick(30_000u32, 4_000_000u32);
     ctx.prop_check("random_histories", cases, hist_strategy(12), |ctx, h| run_hist(ctx, h));
     // coverage-guided part: the committed libFuzzer corpus (fuzz/corpus/c04_hist) through the same model
     crate::fuzzing::corpus_check(ctx, "c04_hist");
